@@ -39,6 +39,15 @@ CLAIMED = {
         'one by one in order; a refused member changes nothing and leaves its neighbours\' replies as if absent; bundle reply bytes = header, count, offsets, members, '
         'offset i = 2+2N+sum of earlier lengths.  Tie: correspondence on histories of bundles; oracle = same members bundled vs singly on two identical simulators.',
    note=LOGIX_NOTE, technique='Coq proof (induction over the member list with readable/well-formed invariants) + correspondence', design='6 C07'),
+
+ 'C20': dict(
+   text='Coq theorems (Properties/C20.v): for every value (any nesting, any payload bytes incl. delimiter/length look-alikes) and any following bytes, '
+        'parse(dump v ++ tail) = (v, tail); the streaming machine fed dump v ++ tail in any chunking stops exactly at the end of the message with its payload and '
+        'type, converting to v for the supported types; the receive loop tnet_from is chunking-independent and yields every message of a separator-delimited '
+        'stream in order.  Tie: correspondence of tnetstrings.dump/parse, tnet_machine and tnet_from (fake chunked connection) with the extracted model.',
+   note='Trusted: Coq kernel; extraction + OCaml driver; hand-written models of tnetstrings and of the 4-state tnet machine / receive loop (not the generic automata '
+        'engine) tied by differential runs; floats carried as their str() text (float(str(f))==f checked on samples); only integer spellings dump produces.',
+   technique='Coq proof (nested induction over values; phase lemmas for the streaming machine) + correspondence', design='6 C20'),
 }
 PENDING = {}
 ALL = ['C%02d' % i for i in range(1, 21)]
